@@ -125,25 +125,26 @@ func c12Accepted(adds [][]byte) (want []bool, ws [][]byte) {
 	return
 }
 
-// c12Classes: number of distinct non-empty right languages of prefixes of the sorted duplicate-free list ws.
+// c12Classes: number of distinct non-empty right languages of prefixes of the sorted duplicate-free list ws
+// (ws is sorted, so the words with a given prefix are contiguous).
 func c12Classes(ws [][]byte) int {
 	seenPrefix := map[string]bool{}
 	classes := map[string]bool{}
-	for _, w := range ws {
+	var sig []byte
+	for i, w := range ws {
 		for l := 0; l <= len(w); l++ {
 			p := string(w[:l])
 			if seenPrefix[p] {
 				continue
 			}
 			seenPrefix[p] = true
-			var sig strings.Builder
-			for _, v := range ws {
-				if len(v) >= l && string(v[:l]) == p {
-					fmt.Fprintf(&sig, "%d:", len(v)-l)
-					sig.Write(v[l:])
-				}
+			sig = sig[:0]
+			for j := i; j < len(ws) && len(ws[j]) >= l && string(ws[j][:l]) == p; j++ {
+				v := ws[j]
+				sig = append(sig, byte((len(v)-l)>>8), byte(len(v)-l))
+				sig = append(sig, v[l:]...)
 			}
-			classes[sig.String()] = true
+			classes[string(sig)] = true
 		}
 	}
 	return len(classes)
@@ -351,6 +352,17 @@ func c12Tags(ws [][]byte, adds [][]byte, tab []dawg.VerifNode) []string {
 	}
 	if len(tab) >= 128 {
 		tags = append(tags, "nodes>=128")
+	}
+	digits := len(ws) >= 30
+	for _, w := range ws {
+		for _, ch := range w {
+			if ch >= 'A' {
+				digits = false
+			}
+		}
+	}
+	if digits {
+		tags = append(tags, "signature-adversarial")
 	}
 	return tags
 }
